@@ -18,11 +18,10 @@ def main():
     checks = []
     na = []
     for pid in ALL:
-        path = os.path.join(HERE, "props", pid + ".py")
-        meta = None
-        if os.path.exists(path):
-            mod = importlib.import_module("props." + pid)
-            meta = getattr(mod, "MANIFEST", None)
+        from props.meta import META
+        pdir = os.path.join(HERE, "props", "parts")
+        has_parts = any(f.startswith(pid + "_") and f.endswith(".py") for f in os.listdir(pdir))
+        meta = META.get(pid) if (has_parts or (META.get(pid) or {}).get("not_applicable")) else None
         if not meta:
             na.append({"property_id": pid, "reason": PENDING_REASON})
             continue
